@@ -71,6 +71,15 @@ func tagValue(rule string, path string) string {
 		return d
 	case strings.HasPrefix(rule, "const:"):
 		return rule[len("const:"):]
+	case rule == "sparse3":
+		// a tag for every third file only (the map function returns no tag for the others)
+		d := regexp.MustCompile(`[0-9]+`).FindString(base)
+		n := 0
+		fmt.Sscanf(d, "%d", &n)
+		if n%3 == 0 {
+			return "t" + d
+		}
+		return ""
 	}
 	return "x"
 }
@@ -186,7 +195,9 @@ func buildWorkflow(s *spec.Spec) (*sp.Workflow, map[string]*node) {
 			p := components.NewMapToTags(wf, ps.Name, func(ip *sp.FileIP) map[string]string {
 				m := map[string]string{}
 				for _, r := range ps.Tags {
-					m[r.Key] = tagValue(r.Rule, ip.Path())
+					if v := tagValue(r.Rule, ip.Path()); v != "" {
+						m[r.Key] = v
+					}
 				}
 				return m
 			})
